@@ -89,6 +89,7 @@ LIB_ATTRS = {
 # names that must be imported from these modules for the T2 entries to apply
 LIB_IMPORTS = {"urlparse": "urllib.parse", "urlunparse": "urllib.parse"}
 CONST_MODULE = "protocol.constants"
+BUILTINS = ("int", "len", "ValueError")       # must mean the builtins: not defined or imported by the module
 # ------------------------------------------------------------------ T3
 RECORD_DECL = {
     "ParsedURL": ("purl", "mk_purl", "pu_", [("scheme", "str"), ("hostname", "str"), ("port", "N"), ("path", "str"),
@@ -128,12 +129,22 @@ class Module:
                 for a in n.names: self.imports[a.asname or a.name] = (n.module or "", a.name)
             elif isinstance(n, ast.Import):
                 for a in n.names: self.imports[(a.asname or a.name).split(".")[0]] = (a.name, None)
-            elif isinstance(n, (ast.FunctionDef, ast.AsyncFunctionDef)): self.funcs.add(n.name)
-            elif isinstance(n, ast.ClassDef): self.classes[n.name] = n
+            elif isinstance(n, (ast.FunctionDef, ast.AsyncFunctionDef)):
+                if n.name in self.funcs: raise Untranslatable("%s: %s is defined twice" % (rel, n.name))
+                self.funcs.add(n.name)
+            elif isinstance(n, ast.ClassDef):
+                if n.name in self.classes: raise Untranslatable("%s: class %s is defined twice" % (rel, n.name))
+                self.classes[n.name] = n
+                names = [m.name for m in n.body if isinstance(m, (ast.FunctionDef, ast.AsyncFunctionDef))]
+                props = {m.name for m in n.body if isinstance(m, ast.FunctionDef) and any("setter" in ast.unparse(d) for d in m.decorator_list)}
+                if len(names) != len(set(names)) or props: raise Untranslatable("%s: a method of %s is defined twice" % (rel, n.name))
             elif isinstance(n, (ast.Assign, ast.AnnAssign, ast.AugAssign)):
                 for t in (n.targets if isinstance(n, ast.Assign) else [n.target]):
                     for x in ast.walk(t):
                         if isinstance(x, ast.Name): self.assigned.add(x.id)
+
+    def defines(self, name):
+        return name in self.funcs or name in self.classes or name in self.assigned or name in self.imports
 
     def imported_from(self, name, module_suffix, orig=None):
         m = self.imports.get(name)
@@ -796,6 +807,14 @@ class UFn(Fn):
                 params.append((p.arg, self.records[self.cls].ty)); continue
             params.append((p.arg, self.ann_type(p.annotation)))
         for p, t in params: self.env[p] = t
+        reserved = set(BUILTINS) | set(LIB_IMPORTS) | set(self.consts) | set(self.records) | set(self.spec.get("callees", {})) | {"cls"}
+        clash = (self.assigned(fn.body) | {p for p, _ in params}) & reserved
+        if clash: raise Untranslatable("local names %s hide names the translation gives a meaning to" % sorted(clash))
+        for n in ast.walk(fn):
+            if isinstance(n, (ast.Global, ast.Nonlocal, ast.Lambda, ast.FunctionDef, ast.AsyncFunctionDef, ast.ClassDef, ast.NamedExpr,
+                              ast.ListComp, ast.DictComp, ast.SetComp, ast.GeneratorExp, ast.Yield, ast.YieldFrom, ast.Await,
+                              ast.Import, ast.ImportFrom, ast.Delete, ast.With, ast.While, ast.Break)) and n is not fn:
+                raise Untranslatable("%s inside the function" % type(n).__name__)
         self.rtype = self.ann_type(fn.returns)
         end = self.wrap_ok("tt") if self.rtype == "unit" else "FALLTHROUGH__"
         body = self.block(fn.body, end)
@@ -851,6 +870,9 @@ def main(out_path):
                "TitanRequest": Record("TitanRequest", req_mod.class_fields("TitanRequest"))}
     if ast.unparse(url_mod.classes["ParsedURL"].bases[0]) != "NamedTuple" or records["ParsedURL"].unmodelled:
         raise Untranslatable("ParsedURL must be a NamedTuple with exactly the modelled fields")
+    for m in (url_mod, req_mod):
+        for b in BUILTINS:
+            if m.defines(b): raise Untranslatable("%s redefines the builtin %s" % (m.rel, b))
     chunks = [HEADER]
     for spec in SPECS:
         spec = dict(spec)
